@@ -21,16 +21,17 @@ AXES = {
     "fw": ["allow_all", "dmz_s0", "asym", "one_s1", "second_public_only", "inner_empty"],
     "hostfw": ["none", "deny_pivot", "deny_same_subnet", "deny_other"],
     "sw": ["1os1s1p", "2os2s2p", "1os2s1p", "2os1s2p"],
-    "exploits": ["e0", "e0e1", "e0e2", "e1e3", "e0e3", "e0e0b"],
+    "exploits": ["e0", "e0e1", "e0e2", "e1e3", "e0e3", "e0e0b", "e1e0"],
     "privescs": ["none", "any_root", "os_root", "user_grant", "two", "dup_pair", "same_os"],
-    "prob": ["one", "half", "mixed_zero"],
-    "cost": ["unit", "frac"],
+    "prob": ["one", "half", "mixed_zero", "fine"],
+    "cost": ["unit", "frac", "fine"],
     "values": ["zero", "pos_neg", "frac"],
     "discovery": ["zero", "one", "frac", "big_neg"],
     "sensitive": ["last", "two_subnets", "same_subnet", "public"],
     "step_limit": [None, 1, 3],
     "bounds": ["default", "enlarged"],
     "host_order": ["sorted", "reversed"],
+    "names": ["plain", "unsorted"],
 }
 AXIS_ORDER = list(AXES.keys())
 
@@ -96,8 +97,9 @@ def build(choice, name=None):
     s1 = srvs[1] if len(srvs) > 1 else srvs[0]
     os1 = oss[1] if len(oss) > 1 else oss[0]
     p1 = procs[1] if len(procs) > 1 else procs[0]
-    prob_of = {"one": [1.0, 1.0, 1.0, 1.0], "half": [0.5, 0.5, 0.5, 0.5], "mixed_zero": [0.5, 1.0, 0.0, 0.25]}[choice["prob"]]
-    cost_of = {"unit": [1, 1, 1, 1], "frac": [2.5, 1, 1.5, 3]}[choice["cost"]]
+    prob_of = {"one": [1.0, 1.0, 1.0, 1.0], "half": [0.5, 0.5, 0.5, 0.5], "mixed_zero": [0.5, 1.0, 0.0, 0.25],
+               "fine": [0.996, 0.004, 0.333, 0.125]}[choice["prob"]]
+    cost_of = {"unit": [1, 1, 1, 1], "frac": [2.5, 1, 1.5, 3], "fine": [0.125, 1.375, 0.625, 2.005]}[choice["cost"]]
     edefs = {
         "e0": {"service": srvs[0], "os": oss[0], "access": USER},
         "e1": {"service": srvs[0], "os": None, "access": ROOT},
@@ -106,7 +108,7 @@ def build(choice, name=None):
         "e0b": {"service": srvs[0], "os": oss[0], "access": ROOT},   # second exploit for the SAME (service, os)
     }
     names = {"e0": ["e0"], "e0e1": ["e0", "e1"], "e0e2": ["e0", "e2"], "e1e3": ["e1", "e3"], "e0e3": ["e0", "e3"],
-             "e0e0b": ["e0", "e0b"]}[choice["exploits"]]
+             "e0e0b": ["e0", "e0b"], "e1e0": ["e1", "e0"]}[choice["exploits"]]
     spec["exploits"] = {}
     seen_keys = set()
     for k, nm in enumerate(names):
@@ -139,11 +141,13 @@ def build(choice, name=None):
             continue
         seen_keys.add(key)
         d = dict(d)
-        d["prob"] = prob_of[(k + 1) % 4] if choice["prob"] != "mixed_zero" else [1.0, 0.5][k % 2]
+        d["prob"] = prob_of[(k + 1) % 4] if choice["prob"] not in ("mixed_zero", "fine") else \
+            ([1.0, 0.5][k % 2] if choice["prob"] == "mixed_zero" else [0.996, 0.333][k % 2])
         d["cost"] = cost_of[(k + 2) % 4]
         spec["privescs"][nm] = d
     sc = {"unit": {"service": 1, "os": 1, "subnet": 1, "process": 1},
-          "frac": {"service": 0, "os": 0.5, "subnet": 2, "process": 1}}[choice["cost"]]
+          "frac": {"service": 0, "os": 0.5, "subnet": 2, "process": 1},
+          "fine": {"service": 0.125, "os": 0.375, "subnet": 1.125, "process": 0.625}}[choice["cost"]]
     spec["scan_costs"] = sc
 
     # ---- hosts: cyclic assignment of configuration patterns
@@ -256,6 +260,10 @@ def build(choice, name=None):
         spec["address_space_bounds"] = None
     spec["host_order"] = choice.get("host_order", "sorted")
     spec["choice"] = dict(choice)
+    if choice.get("names") == "unsorted":
+        # names are labels: lists that are NOT in alphabetical order, names containing one another
+        from .spec import rename_spec
+        spec = rename_spec(spec, {"os0": "zos", "os1": "aos", "s0": "web", "s1": "aweb", "p0": "zproc", "p1": "proc"}, suffix="")
     return spec
 
 
@@ -328,11 +336,13 @@ def corner_specs():
         base = {"shape": "1-1", "topo": "chain", "fw": "allow_all", "hostfw": "none", "sw": "1os1s1p",
                 "exploits": "e0", "privescs": "any_root", "prob": "one", "cost": "unit", "values": "zero",
                 "discovery": "zero", "sensitive": "last", "step_limit": None, "bounds": "default",
-                "host_order": "sorted"}
+                "host_order": "sorted", "names": "plain"}
         base.update(kw)
         out.append(build(base, name=name))
 
     mk("corner-minimal")
+    mk("corner-unsorted-names", sw="2os2s2p", exploits="e0e2", privescs="two", names="unsorted", shape="1-2",
+       sensitive="two_subnets")
     mk("corner-root-exploit-then-user", sw="2os2s2p", exploits="e0e1", privescs="user_grant", values="pos_neg",
        sensitive="two_subnets", shape="1-2")
     mk("corner-hostfw-pivot", shape="1-1-1", topo="full", hostfw="deny_pivot", sw="1os2s1p", exploits="e0e3",
@@ -437,6 +447,12 @@ def thorough_family():
         entries += _entries_for(sp)
     for n in ["small-honeypot", "small-linear"]:
         entries.append((shipped_spec(n), "shipped"))
+    # 16-host shipped scenarios: breadth-first exploration capped at 1200 states (reported as capped, never
+    # called exhaustive): all action histories up to the depth the cap allows, every action, both draw sides
+    for n in ["medium", "medium-single-site", "medium-multi-site"]:
+        sp = shipped_spec(n)
+        sp["_max_states"] = 1200
+        entries.append((sp, "shipped"))
     for seed in (0, 2):
         entries.append(({"name": f"tiny-gen-s{seed}", "gen": ["tiny-gen", seed]}, "generated"))
     entries.append(({"name": "small-gen-s0", "gen": ["small-gen", 0]}, "generated"))
